@@ -4,8 +4,11 @@
    convergence test `abs(worst_val - best_val) < tol` is on integer values, so it equals
    `|worst - best| < tolc` with tolc = ceil(tol) (given by the harness).  Oracle: the points (centroid,
    alpha/gamma/rho/sigma arithmetic, adaptive) and the on_progress answers.
-   Quirk kept: the early return on on_progress returns simplex[0], values[0] AFTER the step and BEFORE the
-   next sort, i.e. not necessarily the best vertex. *)
+   Early return on on_progress, flag [early_best]:
+     true  = the repaired code (fix: commit): returns the minimum over `values`, like the normal exit;
+     false = the pinned code: returned simplex[0], values[0] AFTER the step and BEFORE the next sort, i.e. not
+             necessarily the best vertex (kept for theorem nelder_mead_pinned_refuted).
+   max_iter = 0: `iteration = 0` bound before the loop (fix: commit). *)
 From Coq Require Import List ZArith Bool Arith Lia.
 From SV Require Import C19.B_Common.
 Import ListNotations.
@@ -75,7 +78,15 @@ Definition nm_finish (sign : Z) (max_iter it : nat) (s : list ent) (st : est) : 
   | Some b => Some (mk_result sign b it st (nm_final_status it max_iter), st)
   end.
 
-Fixpoint nm_loop (sign : Z) (max_iter : nat) (tolc : Z) (cb : option (nat -> bool)) (interval : nat)
+Definition nm_early (early_best : bool) (sign : Z) (it : nat) (s : list ent) (st : est) : option (result * est) :=
+  if early_best then
+    match argmin_first s with
+    | None => None
+    | Some b => Some (mk_result sign b it st FEASIBLE, st)
+    end
+  else Some (mk_result sign (hd ent0 s) it st FEASIBLE, st).           (* pinned: Result(simplex[0], values[0], ...) *)
+
+Fixpoint nm_loop (early_best : bool) (sign : Z) (max_iter : nat) (tolc : Z) (cb : option (nat -> bool)) (interval : nat)
          (k it : nat) (s : list ent) (st : est) : option (result * est) :=
   match k with
   | O => nm_finish sign max_iter (it - 1) s st
@@ -87,13 +98,13 @@ Fixpoint nm_loop (sign : Z) (max_iter : nat) (tolc : Z) (cb : option (nat -> boo
       | None => None
       | Some (s2, st2) =>
         if report_progress cb interval it
-        then Some (mk_result sign (hd ent0 s2) it st2 FEASIBLE, st2)      (* Result(simplex[0], values[0], ...) *)
-        else nm_loop sign max_iter tolc cb interval k' (S it) s2 st2
+        then nm_early early_best sign it s2 st2
+        else nm_loop early_best sign max_iter tolc cb interval k' (S it) s2 st2
       end
   end.
 
-(* n = len(x0).  None = raises (max_iter = 0), not modelled (n = 0) or stream too short. *)
-Definition nm_run_st (minimize : bool) (n max_iter : nat) (tolc : Z)
+(* n = len(x0).  None = not modelled (n = 0) or stream too short. *)
+Definition nm_run_st (early_best : bool) (minimize : bool) (n max_iter : nat) (tolc : Z)
            (cb : option (nat -> bool)) (interval : nat) (user_values : list Z) : option (result * est) :=
   let sign := ev_sign minimize in
   match n with
@@ -102,12 +113,9 @@ Definition nm_run_st (minimize : bool) (n max_iter : nat) (tolc : Z)
     match eval_n (S n) (est0 (ev_internal sign user_values)) with        (* values = [evaluate(v) for v in simplex] *)
     | None => None
     | Some (s, st) =>
-      match max_iter with
-      | O => None
-      | S _ => nm_loop sign max_iter tolc cb interval max_iter 1 s st
-      end
+      nm_loop early_best sign max_iter tolc cb interval max_iter 1 s st
     end
   end.
 
-Definition nm_run minimize n max_iter tolc cb interval user_values : option result :=
-  option_map fst (nm_run_st minimize n max_iter tolc cb interval user_values).
+Definition nm_run early_best minimize n max_iter tolc cb interval user_values : option result :=
+  option_map fst (nm_run_st early_best minimize n max_iter tolc cb interval user_values).
